@@ -143,7 +143,12 @@ class Monitor:
         run = [p for p in k.procs.values() if p.state == "run"]
         zomb = [p for p in k.procs.values() if p.state == "zombie"]
         if isinstance(code, str) and code.startswith("exception"):
-            v.append(("master-loop-exception/" + code.split(":")[1],
+            name = code.split(":")[1]
+            nfail = sum(1 for e in k.log if e[1] == "reaped" and (e[3] >> 8) in (3, 4))
+            if name == "HaltServer" and (nfail >= 2 or (nfail >= 1 and halting)):
+                # raised by the SIGCHLD handler while halt()/stop() was already running: nothing catches it there
+                name = "HaltServer-raised-while-already-halting"
+            v.append(("master-loop-exception/" + name,
                       "an exception escaped Arbiter.run(): %s" % [e for e in k.log if e[1] == "master_exception"]))
             return v
         if code == "running":
@@ -183,12 +188,9 @@ class Monitor:
             return v
         # master exited
         if bootfail:
-            want = None
-            for e in k.log:
-                if e[1] == "reaped" and (e[3] >> 8) in (3, 4):
-                    want = e[3] >> 8
-                    break
-            if code != want and not halting:
+            # several workers may fail at the same instant: any of their statuses is "that" status
+            want = sorted(set(e[3] >> 8 for e in k.log if e[1] == "reaped" and (e[3] >> 8) in (3, 4)))
+            if code not in want and not halting:
                 v.append(("wrong-exit-status-after-boot-failure", "master exited with %r, expected %r" % (code, want)))
             if k.fork_after_boot_failure_reaped:
                 v.append(("respawn-after-boot-failure", "%d fork() calls after a status-3/4 exit was reaped" %
